@@ -64,7 +64,7 @@ def exec (ops : HeapOps CHeap) (op : Op) (s : St CHeap) : Outcome (St CHeap × B
     let (v, st) ← s.stack.pop
     let vec := ops.deref s.heap v
     let h ← ops.vectorPush s.heap vec s.acc
-    .ok ({ s with heap := h, stack := st, acc := vec }, false)
+    .ok ({ s with heap := h, stack := st, acc := v }, false)
   | .closureAcc => do
     let lam ← asPtr s.acc
     let (h, c) ← ops.makeClosure s.heap lam s.ep s.bp s.stack
